@@ -928,6 +928,16 @@ static Verdict run(const Case& c)
    int nC = C.numCols(), mC = C.numRows();
    if(cn.num() != nC || rn.num() != mC)
    {
+      // known finding state-cpx-ranged-row (second symptom): the LP-format writer splits a ranged row R into rows named
+      // R_1 / R_2; if the user's own names contain such a name the LP file has a repeated label, which the LP reader drops
+      // (C13 known finding lpf-rowname-desync), so the name set no longer matches the rows
+      bool anyRanged = false;
+      for(int i = 0; i < lp.m(); i++) if(isFin(lp.lhs[i]) && isFin(lp.rhs[i]) && lp.lhs[i] != lp.rhs[i]) anyRanged = true;
+      if(lpFormat && anyRanged && knownKey("state-cpx-ranged-row"))
+      {
+         e.count("excluded_known.state-cpx-ranged-row.derived_name_collides");
+         return v;
+      }
       v.fail("name sets returned by readFile do not match the LP size (" + tagB + ")");
       return v;
    }
